@@ -77,6 +77,7 @@ def plan(tier, seed):
     nb = 140 if tier == 'quick' else 3000
     return ([{'kind': 'random', 'seed': seed, 'idx': i} for i in range(n)] +
             [{'kind': 'sweep', 'seed': seed, 'idx': i} for i in range(nb)] +
+            [{'kind': 'death-during', 'seed': seed, 'idx': i} for i in range(48 if tier == 'quick' else 480)] +
             [{'kind': 'live', 'seed': seed, 'idx': i} for i in range(3 if tier == 'quick' else 30)])
 
 
@@ -110,6 +111,33 @@ def run_case(spec):
     h = gen_spec(rnd)
     if spec['kind'] == 'random':
         run_history(h, res)
+        return res
+    if spec['kind'] == 'death-during':
+        # a worker dies by itself / is killed from outside a few hundredths of a second INTO an operation that replaces
+        # or removes workers of its (active) watcher: it exited by itself, the subscriber is owed its reap event
+        np_ = [2, 3][spec['idx'] % 2]
+        op = [['req', 'reload', {'name': 'a', 'waiting': False}], ['req', 'decr', {'name': 'a', 'nb': 1, 'waiting': False}],
+              ['req', 'set', {'name': 'a', 'options': {'numprocesses': 1}, 'waiting': False}],
+              ['req', 'reload', {'name': 'a', 'waiting': True}]][(spec['idx'] // 2) % 4]
+        delay = [0.0, 0.02, 0.05, 0.1, 0.15, 0.25][(spec['idx'] // 8) % 6]
+        healthy = {'15': ['exit', 0.05, 3]}
+        if spec['idx'] % 3 == 0:
+            # the first replacement of a graceful reload exits at once: the surplus is one smaller than the old
+            # generation, whose youngest member is taken down in a second pass -- and dies from outside before that
+            behs = [healthy] * np_ + [dict(healthy, self_exit=[0.0, 256])] + [healthy] * 12
+            op = ['req', 'reload', {'name': 'a', 'waiting': spec['idx'] % 2 == 0}]
+            death = ['extkill', 'a', np_ - 1, 9]
+            delay = [0.02, 0.04, 0.08][(spec['idx'] // 6) % 3]
+        else:
+            behs = [healthy]
+            death = [['extkill', 'a', spec['idx'] % np_, 9],
+                     ['die', 'a', spec['idx'] % np_, simhist.wstatus('exit', 7)]][(spec['idx'] // 3) % 2]
+        hh = {'kill_latency': 0.0,
+              'watchers': [{'name': 'a', 'numprocesses': np_, 'graceful_timeout': rnd.choice([0.1, 0.3]), 'warmup_delay': 0,
+                            'singleton': False, 'beh': behs}],
+              'steps': [['adv', 0.3], op, ['adv', delay], death, ['adv', 0.5], ['qpoint']]}
+        run_history(hh, res)
+        res.obs['death_during_operation_cases'] += 1
         return res
     op = rnd.choice([['check'], ['check'], ['req', 'incr', {'name': 'a', 'nb': 1}],
                      ['req', 'decr', {'name': 'a', 'nb': 1}], ['req', 'reload', {'name': 'a'}],
@@ -321,7 +349,32 @@ def _active_at(w, p):
                 state = parts[2]
             else:
                 break
-    return state == 'start'
+    if state != 'start':
+        return False
+    # ... and not being stopped: from the moment a stop / restart / rm / quit that covers it was accepted until its
+    # next start event the watcher is "stopping" or "starting", whatever the event channel has said so far
+    evs = w.events()
+    for mid, rec in w.sent.items():
+        if rec.get('cmd') not in ('stop', 'restart', 'rm', 'quit'):
+            continue
+        props = rec.get('props') or {}
+        if props.get('name') is not None and simhist.tag_of(str(props['name'])) != p.tag:
+            continue
+        rep = w.reply(mid)
+        if isinstance(rep, dict) and rep.get('status') == 'error':
+            continue
+        t_req = rec['t']
+        if t_req > p.exit_t + 1e-9:
+            continue
+        t_start = None
+        for t, topic, msg in evs:
+            parts = topic.split('.')
+            if len(parts) >= 3 and parts[1] == wn and parts[2] == 'start' and t + EPOCH >= t_req - 1e-9:
+                t_start = t + EPOCH
+                break
+        if t_start is None or p.exit_t <= t_start + 1e-9:
+            return False
+    return True
 
 
 @gen.coroutine
